@@ -19,7 +19,7 @@ claim('C02', 'Lean 4 theorems (lines tile the file; messages partition; find_sys
       "message exactly once in file order; the LineReader's cache and drops are transparent for every history (CacheSpec); the SyslineReader's stored state (syslines, syslines_by_range, find_sysline LRU; lookup order and "
       "invalidation regenerated from the source) never yields a wrong message for any history of finds, in-block finds, drops, clears and removes, and is exactly transparent for drop-free histories and for the "
       "find-then-drop discipline of exec_syslogprocessor (SyslCacheSpec; two latent library defects outside that discipline are proved as counter-models and reproduced on the real reader); the printer writes exactly the message's parts in order through "
-      "its 2056-byte buffer (PrintSpec: C13_parts_bytes, C19_printed_eq_written, macro bodies regenerated from printers.rs). The models are tied to the real readers by differential runs (exhaustive small files at every block size; random access with warm "
+      "its 2056-byte buffer (PrintSpec: C13_parts_bytes, C19_printed_eq_written, macro bodies regenerated from printers.rs). LineReader::find_line itself is REGENERATED from linereader.rs as a program (101 statements) whose interpreter is proved equal to the hand models for every store and block size (LineSkelSpec: C12_findLine_skeleton_is_model, C12_findLineCached_skeleton_is_model, C02_history_skeleton_is_model), and with the previous line stored it never requests a block below the offset's block (C05_findLine_no_lookback; counter-model = seeded C12-d); ten mutants regenerated from edited source text each falsify a named statement; component lskel compares real = hand = interpreter. The models are tied to the real readers by differential runs (exhaustive small files at every block size; random access with warm "
       "caches and drops; gz). The binary's stdout is compared byte for byte with the file suffix for 8 input shapes (CRLF, NUL/non-UTF-8, missing final newline, headless "
       "prefix, multi-block lines, > 8096 bytes, lines longer than the print buffer). The acceptance gate is modelled and tied but is bs-dependent: known findings F1, F2.",
       TB + "Modelled not verified: regex/chrono decide which lines are timestamped (parameter P; the regexes themselves are modelled under C04); completion of the in-block walk is an observed input of the cached sysline model.",
@@ -85,7 +85,7 @@ claim('C16', 'Lean 4 theorems on a hand model of pathbuf_to_filetype_impl over t
 claim('C07', 'Lean 4 theorems (isolation, termination, error accounting on the coordinator model; totality/in-bounds of the modelled cores) + fault-injection stream on the real binary with trace replay',
       "Machine-checked (the logic part): for every schedule and arbitrary behaviour of the other sources the output restricted to healthy sources is the merge of the healthy "
       "sources, every run ends within a bound, errs = 0 iff all delivered data were ok and every source delivered a summary; find_line parts are always inside their blocks, "
-      "classification terminates for every name, searches never err. The rest is TESTING and labelled so: mutants of valid files of every kind/container (truncations, bit "
+      "classification terminates for every name, searches never err. Known finding F38 (an .evtx record with size field 0 makes the third-party parser loop for ever). The rest is TESTING and labelled so: mutants of valid files of every kind/container (truncations, bit "
       "flips, random bytes, constant fill, mismatched names) alone and beside valid sources under delay plans must exit 0/1 without panic text within a time limit and leave the "
       "healthy sources' lines complete and ordered; traces are replayed through the model.",
       TB + "Not provable here: absence of panics/aborts inside third-party decoders, libsystemd and the unsafe casts; wall-clock promptness.",
